@@ -75,7 +75,9 @@ def make_component(rng, ctor, cid, n1, n2, dec, freqs=None, lossy=0.35, allow_ne
 
 def phase(rng):
     r = rng.random()
-    if r < 0.2:
+    if r < 0.12:
+        return 0.0
+    if r < 0.3:
         return rng.choice([0.0, math.pi / 2, -math.pi / 2, math.pi, -math.pi, 2 * math.pi, math.pi / 4])
     if r < 0.3:
         return rng.uniform(-6 * math.pi, 6 * math.pi)
